@@ -311,3 +311,190 @@ def cond_truth(e: ast.AST, key: str, members: Dict[str, bool]) -> Optional[bool]
             if isinstance(r, ast.Name) and r.id in members:
                 return members[r.id] == isinstance(op, ast.In)
     return None
+
+
+# ---- E11b: ordered mappings built from several sources, under conditions ---------------------------------------------------------
+class OPart:
+    """entries (key(K), value(K)) for every element K of `source` for which cond(K) holds - or, with whole=True, every entry of the
+    mapping `source` as it is; contributed on the paths where all of `when` hold; `seq` orders the contributions"""
+
+    def __init__(self, source: str, key: str, value: str, cond: ast.AST, when, seq: int, whole: bool = False):
+        self.source, self.key, self.value, self.cond, self.when, self.seq, self.whole = source, key, value, cond, tuple(when), seq, whole
+
+    def __repr__(self):
+        return '#%d %s%s%s' % (self.seq, ('entries of %s' % self.source) if self.whole else '{%s: %s for %s in %s if %s}' % (
+            self.key, self.value, K, self.source, norm(self.cond)), ' when ' if self.when else '', ' and '.join(
+                ('' if p else 'not ') + t for t, p in self.when))
+
+
+class OAbs:
+    def __init__(self, kind: str, parts=None):
+        self.kind = kind            # 'pairs' (a list of pairs) | 'dict' | 'OrderedDict'
+        self.parts: List[OPart] = parts if parts is not None else []
+
+    def __repr__(self):
+        return '%s[%s]' % (self.kind, '; '.join(map(repr, self.parts)))
+
+
+class OrderedFlow:
+    """Abstract run of a function body for the ordered mappings / pair lists it builds.  Supported: empty containers, pair-list
+    comprehensions, insert loops, `.extend(E.items())` / `.update(E.items())` / `.update(E)`, OrderedDict(pairs) / dict(pairs),
+    plain aliases, and `if` statements (the path condition is recorded with every contribution).  Anything else that touches a
+    tracked container makes it unknown."""
+
+    def __init__(self, fn_node: ast.AST, alpha=None):
+        from .guards import canon_atom
+        self.canon_atom = canon_atom
+        self.alpha = alpha
+        self.env: Dict[str, Any] = {}
+        self.aliases: Dict[str, ast.AST] = {}
+        self.seq = 0
+        self.bad: Dict[str, str] = {}
+        self.snapshots: List[tuple] = []        # (call node, abstract value of its arguments' names at that point)
+        self._block(list(fn_node.body), [])
+
+    def _src(self, e: ast.AST) -> str:
+        while isinstance(e, ast.Call) and isinstance(e.func, ast.Name) and e.func.id in ('list', 'tuple') and len(e.args) == 1 and not e.keywords:
+            e = e.args[0]
+        if isinstance(e, ast.Name) and e.id in self.aliases:
+            return self._src(self.aliases[e.id])
+        return self.alpha.text(e) if self.alpha is not None else norm(e)
+
+    def _next(self) -> int:
+        self.seq += 1
+        return self.seq
+
+    @staticmethod
+    def _empty(e) -> Optional[str]:
+        if isinstance(e, ast.List) and not e.elts:
+            return 'pairs'
+        if isinstance(e, ast.Dict) and not e.keys:
+            return 'dict'
+        if isinstance(e, ast.Call) and not e.args and not e.keywords:
+            n = call_name(e)
+            if n == 'list':
+                return 'pairs'
+            if n in ('dict', 'OrderedDict'):
+                return n
+        return None
+
+    def _value(self, e: ast.AST, when):
+        k = self._empty(e)
+        if k:
+            return OAbs(k)
+        if isinstance(e, ast.Name) and isinstance(self.env.get(e.id), OAbs):
+            return self.env[e.id]
+        if isinstance(e, ast.ListComp) and len(e.generators) == 1 and isinstance(e.elt, ast.Tuple) and len(e.elt.elts) == 2 \
+                and isinstance(e.generators[0].target, ast.Name):
+            g = e.generators[0]
+            t = g.target.id
+            cond: ast.AST = TRUE
+            for c in g.ifs:
+                cond = _and(cond, _kname(c, t))
+            return OAbs('pairs', [OPart(self._src(g.iter), norm(_kname(e.elt.elts[0], t)), norm(_kname(e.elt.elts[1], t)), cond, when, self._next())])
+        if isinstance(e, ast.Call) and call_name(e) in ('dict', 'OrderedDict') and len(e.args) == 1 and not e.keywords:
+            inner = self._value(e.args[0], when)
+            if isinstance(inner, OAbs):
+                return OAbs(call_name(e), list(inner.parts))
+        return None
+
+    def _spoil(self, st):
+        for n in ast.walk(st):
+            if isinstance(n, ast.Name) and n.id in self.env and not isinstance(n.ctx, ast.Load):
+                self.bad[n.id] = norm(st)[:60]
+            if isinstance(n, ast.Call) and isinstance(n.func, ast.Attribute) and isinstance(n.func.value, ast.Name) \
+                    and n.func.value.id in self.env and n.func.attr in ('append', 'extend', 'update', 'insert', 'pop', 'remove', 'clear',
+                                                                        'setdefault', 'popitem', 'move_to_end', 'sort', 'reverse'):
+                self.bad[n.func.value.id] = norm(n)[:60]
+            if isinstance(n, ast.Subscript) and isinstance(n.ctx, (ast.Store, ast.Del)) and isinstance(n.value, ast.Name) and n.value.id in self.env:
+                self.bad[n.value.id] = norm(st)[:60]
+
+    def _block(self, stmts, when):
+        for st in stmts:
+            if isinstance(st, ast.Assign) and len(st.targets) == 1 and isinstance(st.targets[0], ast.Name):
+                v = self._value(st.value, when)
+                name = st.targets[0].id
+                if isinstance(v, OAbs):
+                    if name in self.env and self.env[name] is not v and not self._same_shape(name):
+                        # bound on several paths: keep them all (each part carries its own `when`)
+                        self.env[name] = OAbs(v.kind if v.kind == self.env[name].kind else 'mixed', self.env[name].parts + v.parts)
+                    else:
+                        self.env[name] = v
+                    continue
+                if name in self.env:
+                    self.bad[name] = norm(st)[:60]
+                elif isinstance(st.value, (ast.Name, ast.Attribute, ast.Subscript, ast.Call)):
+                    self.aliases[name] = st.value
+                continue
+            if isinstance(st, ast.Expr) and isinstance(st.value, ast.Call) and isinstance(st.value.func, ast.Attribute) \
+                    and isinstance(st.value.func.value, ast.Name) and isinstance(self.env.get(st.value.func.value.id), OAbs):
+                c = st.value
+                d = self.env[c.func.value.id]
+                if c.func.attr in ('extend', 'update') and len(c.args) == 1 and not c.keywords:
+                    a = c.args[0]
+                    if isinstance(a, ast.Call) and isinstance(a.func, ast.Attribute) and a.func.attr == 'items' and not a.args:
+                        d.parts.append(OPart(self._src(a.func.value), K, 'V', TRUE, when, self._next(), whole=True))
+                        continue
+                    if c.func.attr == 'update' and isinstance(a, (ast.Name, ast.Attribute)):
+                        d.parts.append(OPart(self._src(a), K, 'V', TRUE, when, self._next(), whole=True))
+                        continue
+                self._spoil(st)
+                continue
+            if isinstance(st, ast.For) and not st.orelse and isinstance(st.target, ast.Name):
+                if self._loop(st, when):
+                    continue
+                self._spoil(st)
+                continue
+            if isinstance(st, ast.If):
+                t, p = self.canon_atom(self.alpha.rewrite(st.test) if self.alpha is not None else st.test)
+                self._block(st.body, when + [(t, p)])
+                self._block(st.orelse, when + [(t, not p)])
+                continue
+            if isinstance(st, (ast.Expr, ast.Return, ast.Assign)):
+                for c in [n for n in ast.walk(st) if isinstance(n, ast.Call)]:
+                    for a in list(c.args) + [k.value for k in c.keywords]:
+                        if isinstance(a, ast.Name) and isinstance(self.env.get(a.id), OAbs):
+                            self.snapshots.append((c, a.id, OAbs(self.env[a.id].kind, list(self.env[a.id].parts)), list(when)))
+            if isinstance(st, (ast.Try, ast.With, ast.While)):
+                self._spoil(st)
+                continue
+            # other statements: only a problem when they write a tracked container
+            if not isinstance(st, (ast.Expr, ast.Return, ast.Raise, ast.Pass)):
+                self._spoil(st)
+
+    def _same_shape(self, name) -> bool:
+        return False
+
+    def _loop(self, lo: ast.For, when) -> bool:
+        t = lo.target.id
+        src = self._src(lo.iter)
+        adds = []
+
+        def walk(stmts, path):
+            for s in stmts:
+                if isinstance(s, ast.If):
+                    if not walk(s.body, _and(path, _kname(s.test, t))):
+                        return False
+                    if not walk(s.orelse, _and(path, _not(_kname(s.test, t)))):
+                        return False
+                elif isinstance(s, ast.Assign) and len(s.targets) == 1 and isinstance(s.targets[0], ast.Subscript) \
+                        and isinstance(s.targets[0].value, ast.Name) and isinstance(self.env.get(s.targets[0].value.id), OAbs):
+                    adds.append((s.targets[0].value.id, norm(_kname(s.targets[0].slice, t)), norm(_kname(s.value, t)), path))
+                elif isinstance(s, ast.Expr) and isinstance(s.value, ast.Call) and isinstance(s.value.func, ast.Attribute) \
+                        and s.value.func.attr == 'append' and isinstance(s.value.func.value, ast.Name) \
+                        and isinstance(self.env.get(s.value.func.value.id), OAbs) and len(s.value.args) == 1 \
+                        and isinstance(s.value.args[0], ast.Tuple) and len(s.value.args[0].elts) == 2:
+                    e = s.value.args[0]
+                    adds.append((s.value.func.value.id, norm(_kname(e.elts[0], t)), norm(_kname(e.elts[1], t)), path))
+                elif isinstance(s, (ast.Pass,)) or (isinstance(s, ast.Expr) and isinstance(s.value, ast.Constant)):
+                    pass
+                elif isinstance(s, ast.Expr) and isinstance(s.value, ast.Call) and norm(s.value.func).startswith('logger.'):
+                    pass
+                else:
+                    return False
+            return True
+        if not walk(lo.body, TRUE) or not adds:
+            return False
+        for name, key, value, path in adds:
+            self.env[name].parts.append(OPart(src, key, value, path, when, self._next()))
+        return True
